@@ -9,7 +9,7 @@
 """
 import argparse, glob, json, os, shutil, subprocess, sys, tempfile, time
 
-V = "/verif"
+V = os.environ.get("VERIF_HOME", "/verif")
 
 
 def sh(cmd, **kw):
